@@ -504,6 +504,9 @@ func (w *Writer) Write(v interface{}) *Writer {
 //   - 指针：自动解引用，nil 指针会返回错误
 func (w *Writer) writeReflect(v interface{}) error {
 	rv := reflect.ValueOf(v)
+	if !rv.IsValid() {
+		return fmt.Errorf("cannot write nil value")
+	}
 
 	// 处理指针类型，自动解引用
 	for rv.Kind() == reflect.Ptr {
@@ -541,8 +544,16 @@ func (w *Writer) writeReflect(v interface{}) error {
 		return nil
 
 	default:
-		w.Write(v)
-		return nil
+		// 到达此处的值要么是 Write 直接支持的基础类型（例如结构体字段、切片元素、解引用后的指针），
+		// 要么是编解码器不支持的类型（int、uint、map、chan、func、复数、命名基础类型等）。
+		// 后者必须返回错误：若继续交给 Write，会在 Write 与 writeReflect 之间无限递归直至栈溢出。
+		switch val := rv.Interface().(type) {
+		case byte, int8, int16, uint16, uint32, int32, uint64, int64, float32, float64, bool, string, []byte:
+			w.Write(val)
+			return w.err
+		default:
+			return fmt.Errorf("unsupported type for writing: %T", v)
+		}
 	}
 }
 
